@@ -363,6 +363,12 @@ func (w *e2eWorld) generate() {
 			for k := 0; k < 2 && ch.Chance(1, 2, "more data"); k++ {
 				parts = append(parts, e2eData[ch.Intn(len(e2eData), "data")])
 			}
+			if ch.Chance(1, 6, "large payload") {
+				// large enough to make the client's scanner grow and compact its buffer
+				sz := []int{1500, 3000, 5000, 9000}[ch.Intn(4, "payload size")]
+				parts = append(parts, strings.Repeat(string(rune('a'+seq%26)), sz))
+				w.o.probe("large payload (buffer compaction on the client)")
+			}
 			for _, part := range parts {
 				m.AppendData(part)
 				if ch.Chance(1, 6, "comment") {
@@ -733,6 +739,10 @@ func (w *e2eWorld) evaluate(res verifhook.Result) {
 	}
 	if len(res.Panicked) > 0 || len(o.Violations) > 0 {
 		return
+	}
+	for _, r := range w.sim.Races() {
+		o.probe("lockset report: " + r.Site)
+		o.violate("C13", "data-race-e2e", "lockset violation: %s", r.String())
 	}
 	if res.CapHit {
 		o.Inconclusive = true
